@@ -1,7 +1,7 @@
 """C07 -- LFUCache: never exceeds max_size, returns the latest stored value, evicts a least frequently used key.
 
 Use counts are unbounded, so the exploration is depth-bounded with state de-duplication: capacities 1 and 2 to
-6 (quick) / 8 (thorough) operations, capacity 3 to 4 / 6 operations (its state count triples per level:
+8 (quick) / 10 (thorough) operations, capacity 3 to 4 / 6 operations (its state count triples per level:
 15 160 states / 330 k transitions at depth 4, 1.1 M transitions at depth 5); keys {0..capacity}, values {a,b};
 two initial configurations per capacity (empty; "warm" = keys 0..capacity-1 stored and looked up once, all
 counts 2, which puts a full cache with counts > 1 at depth 0); the same MutableMapping menu as C06.  Every
@@ -101,7 +101,7 @@ def make_spec(capacity):
 
 
 def run(report, tier):
-    depths = {1: 6, 2: 6, 3: 4} if tier == "quick" else {1: 8, 2: 8, 3: 6}
+    depths = {1: 8, 2: 8, 3: 4} if tier == "quick" else {1: 10, 2: 10, 3: 6}
     report.rule("one evaluation = one operation of the mapping menu applied in one cache state reached within the "
                 "depth bound, followed by list(c) against the reference set (victim has a minimal count, order "
                 "non-decreasing in count), len, dict/list/link agreement and a look-up of every key on a deep copy; "
